@@ -448,12 +448,24 @@ class UserActions(object):
     recalc_cols = set()
     for col_id in table.all_columns:
       if col_id in column_values:
+        # An explicit value is kept (the doc action prevented its recalculation), except that a
+        # column that depends on itself gets recalculated, as for updates.
+        col_obj = table.all_columns[col_id]
+        if col_obj.has_formula() and not col_obj.is_formula() and not table_id.startswith('_grist_'):
+          col_rec = self._docmodel.columns.lookupOne(tableId=table_id, colId=col_id)
+          if col_rec.recalcOnChangesToSelf:
+            self._engine.prevent_recalc(col_obj.node, filled_row_ids, should_prevent=False)
         continue
       if not table_id.startswith('_grist_'):
         col_rec = self._docmodel.columns.lookupOne(tableId=table_id, colId=col_id)
         if col_rec.recalcWhen == RecalcWhen.NEVER:
           continue
       recalc_cols.add(col_id)
+      # The doc action prevented recalculation of trigger formulas in the new rows; allow it again
+      # for the columns that didn't get an explicit value.
+      col_obj = table.all_columns[col_id]
+      if col_obj.has_formula() and not col_obj.is_formula():
+        self._engine.prevent_recalc(col_obj.node, filled_row_ids, should_prevent=False)
 
     self._engine.invalidate_records(table_id, filled_row_ids, data_cols_to_recompute=recalc_cols)
 
